@@ -1394,6 +1394,7 @@ pub fn dispatch(sc: &Value) -> Value {
         "c12_mutation" => replay_c12_mutation(sc),
         "daily_marks" => replay_daily_marks(sc),
         "bytes_decoder" => replay_bytes_decoder(sc),
+        "sql_clause" => crate::database::query::verif_hook::replay_sql_clause(sc),
         "room_node_merge" => replay_room_node_merge(sc),
         "room_mutation" => replay_room_mutation(sc),
         "date_fn" => {
